@@ -46,6 +46,11 @@ Shapes == {
   [pos |-> "subquery", q |-> SelQ(<<I(A, ""), I(Sub(NQ(<<I(Boom(Col("p")), "p")>>, None)), "s")>>, T, None)],
   [pos |-> "insub",   q |-> SelQ(<<I(A, "")>>, T, InSub(A, SelQ(<<I(Boom(Col("c")), "c")>>, Table(<<"<-", "u">>, ""), None)))],
   [pos |-> "exists",  q |-> SelQ(<<I(A, "")>>, T, Exists(NQ(<<Star>>, CmpE(">", Boom(Col("p")), LN(1)))))],
+  [pos |-> "exists_select", q |-> SelQ(<<I(A, "")>>, T, Exists(NQ(<<I(Boom(Col("p")), "p")>>, None)))],
+  [pos |-> "notexists_select", q |-> SelQ(<<I(A, "")>>, T, NotE(Exists(NQ(<<I(Boom(Col("p")), "p")>>, CmpE(">", Col("p"), LN(1))))))],
+  [pos |-> "exists_having", q |-> SelQ(<<I(A, "")>>, T, Exists([NQ(<<I(Col("p"), ""), I(Agg("count", <<>>), "k")>>, None) EXCEPT !.group = <<"p">>,
+                                                                !.having = CmpE(">", Boom(Agg("count", <<>>)), LN(0))]))],
+  [pos |-> "exists_raise", q |-> SelQ(<<I(A, "")>>, T, Exists(NQ(<<I(Fn("raise_when", <<CmpE(">", Col("p"), LN(4)), LS(<<98>>)>>), ""), I(Col("p"), "")>>, None)))],
   [pos |-> "unionr",  q |-> UnionQ(SelQ(<<I(A, "")>>, T, None), SelQ(<<I(Boom(Col("c")), "a")>>, U, None))],
   [pos |-> "unionl",  q |-> UnionQ(SelQ(<<I(Boom(A), "a")>>, T, None), SelQ(<<I(Col("c"), "a")>>, U, None))],
   [pos |-> "dimension", q |-> SelQ(<<I(Boom(A), "b")>>, Table(<<"m">>, ""), CmpE(">", A, LN(1)))],
